@@ -492,4 +492,6 @@ def run(ctx):
     formatter_style_set_rule(ctx, r)
     ctx.borrow("c04", "C04-R15", "C09-R16", "the version switch acts 'without invoking the command's handler' - and without building it: the configured handler (possibly a factory) is "
                "looked up only after the pre-handle listeners had their say")
+    ctx.borrow("c13", "C13-R11", "C09-R17", "the help switch 'prints that command's help ... with status 0' whatever else the line lacks: the lenient mode switched on for the help request governs the parse "
+               "that is handed on (a result parsed strictly during resolution is not reused)")
     return ctx.results
